@@ -57,8 +57,10 @@ def session_menu(state, depth):
                 continue
             if sk == "inside_finalized" and not mine:
                 continue
-            for wk in ("one_file", "cross", "run_into"):
-                if sk == "inside_finalized" and wk != "one_file":
+            for wk in ("one_file", "cross", "run_into", "blocks"):
+                if sk == "inside_finalized" and wk not in ("one_file", "blocks"):
+                    continue
+                if wk == "blocks" and sk != "inside_finalized":
                     continue
                 out.append((dname, sk, wk))
         if mine:
@@ -90,7 +92,11 @@ def build_session(state, choice):
         f0 = max(mine)
         start = first_of_file(f0) + 1
     later_free = first_of_file((max(allf) if allf else f0) + 4 + (0 if sk != "later" else 3))
-    if sk == "inside_finalized":
+    if sk == "inside_finalized" and wk == "blocks":
+        # one multi-block call: its first block needs the finalized file, its last block lies in a free period;
+        # then a plain write further on
+        ops = [("wb", [0, later_free - start], [0, 2], 4), ("w", later_free - start + 40, 2)]
+    elif sk == "inside_finalized":
         ops = [("w", 0, 2), ("w", later_free - start, 2)]
     elif wk == "one_file":
         ops = [("w", 0, 2)]
@@ -107,8 +113,11 @@ def build_session(state, choice):
     # prune: a session may not record a file period that exists in another directory
     touched = set()
     for op in ops:
-        for k in range(start + op[1], start + op[1] + op[2]):
-            touched.add(file_of(k))
+        g_, b_, L_ = rf.op_blocks(op, 0)
+        for i_ in range(len(g_)):
+            n_ = (b_[i_ + 1] if i_ + 1 < len(b_) else L_) - b_[i_]
+            for k in range(start + g_[i_], start + g_[i_] + n_):
+                touched.add(file_of(k))
     if touched & others:
         return None
     return dname, start, ops
@@ -143,12 +152,17 @@ def enumerate_histories(max_sessions):
             mine_before = set(fl)
             for op in ops:
                 blocked = False
-                for k in range(start + op[1], start + op[1] + op[2]):
-                    f = file_of(k)
-                    if f in mine_before:
-                        blocked = True
+                g_, b_, L_ = rf.op_blocks(op, 0)
+                for i_ in range(len(g_)):
+                    n_ = (b_[i_ + 1] if i_ + 1 < len(b_) else L_) - b_[i_]
+                    for k in range(start + g_[i_], start + g_[i_] + n_):
+                        f = file_of(k)
+                        if f in mine_before:
+                            blocked = True
+                            break
+                        fl.add(f)
+                    if blocked:
                         break
-                    fl.add(f)
             rec(prefix + [ch], st2, depth + 1)
 
     rec([], {}, 0)
@@ -291,11 +305,17 @@ def run_history(args):
             # directory whose channel has been set up (properties file) but holds no data file yet
             import itertools
 
+            if len(tops) == 1 and len(repr(hist)) % 4:
+                orders_wanted = False  # single-directory histories: every fourth one gets the extra directory
+            else:
+                orders_wanted = True
             etop = os.path.join(root, "E")
             os.makedirs(os.path.join(etop, "ch0"))
             rf.open_writer(drf, os.path.join(etop, "ch0"), rf.Cfg(**{**base_cfg, "start": first_of_file(90), "uuid": "no-data-yet"})).close()
             orders = [list(p_) for p_ in itertools.permutations(tops)] if len(tops) > 1 else []
             orders += [list(tops[:i_]) + [etop] + list(tops[i_:]) for i_ in range(len(tops) + 1)]
+            if not orders_wanted:
+                orders = []
             for oi, order in enumerate(orders):
                 names = [os.path.basename(t_) for t_ in order]
                 try:
